@@ -21,7 +21,7 @@ from simprocesd.model.factory_floor.asset import Asset  # noqa: E402
 
 TICK = 16.0
 _tick = [16.0]
-STEP_LIMIT = 20000
+STEP_LIMIT = 8000
 
 
 class StepLimit(Exception):
@@ -140,6 +140,7 @@ class Runner:
         self.id2idx = {}
         self.eids = {}
         self.keep = []
+        self.lastline = {}
 
     # ---- canonicalisation -----------------------------------------------------------------
     def canon_asset(self, asset_id):
@@ -192,7 +193,10 @@ class Runner:
         self.results = []
 
     def dump(self):
+        """State lines that changed since they were last printed (`now` always: frame delimiter)."""
         env = self.env
+        full = self.out
+        self.out = []
         self.out.append(f'now {ticks(env.now)} {1 if env._terminated else 0}')
         self.out.append('q ' + (','.join(self.ev_str(e) for e in env._events) or '-'))
         self.out.append('z ' + (','.join(self.ev_str(e) for e in env._paused_events) or '-'))
@@ -200,6 +204,14 @@ class Runner:
         self.out.append('qid ' + (','.join(str(self.eid(e)) for e in env._events) or '-'))
         self.out.append('zid ' + (','.join(str(self.eid(e)) for e in env._paused_events) or '-'))
         self.dump_ext()
+        lines = self.out
+        self.out = full
+        for l in lines:
+            t = l.split(' ', 2)
+            k = t[0] if t[0] in ('now', 'q', 'z', 'wq', 'qid', 'zid') else t[0] + ' ' + t[1]
+            if k == 'now' or self.lastline.get(k) != l:
+                self.out.append(l)
+                self.lastline[k] = l
 
     def dump_ext(self):
         pass
